@@ -23,7 +23,7 @@ T = {
  "C13": ("model_checking", "bits package: fixed-width, flag, ue(v) and se(v) values written by the writers are read back identically for every width 1..64 at every bit offset; the EBSP writer emits no 00 00 0x start-code emulation, inserts escapes only where required and the EBSP reader returns exactly the written bytes with position counters in the escaped stream; symbolic values and bytes", "z3"),
  "C14": ("model_checking", "Annex B (3/4-byte start codes in any mix) <-> 4-byte length-prefixed conversion preserves the NAL unit sequence; the word-at-a-time start code scanner equals a byte-by-byte reference scan; the sample/byte-stream walkers of avc and hevc (NAL list, types, parameter sets, first video NAL, contains type, IDR/RAP) agree with that sequence; symbolic buffers up to the bound", "z3"),
  "C15": ("model_checking", "AVC and HEVC: independent serializers of ISO/IEC 14496-10 7.3.2.1/7.3.2.2/7.3.3 and ISO/IEC 23008-2 7.3.2.2/7.3.2.3/7.3.3/7.3.6.1/7.3.7/E.2.1 (own bit writer and Exp-Golomb coder) produce SPS, PPS and slice (segment) headers (AVC: I/P/B/SP/SI, HEVC: I) from symbolic field values; the parsers must return those values, width/height by the cropping / conformance window formula, resolve slice -> PPS -> SPS through the ids (pps id != sps id), and report the header size; CreateAVCDecConfRec / CreateHEVCDecConfRec / CodecString carry profile, compatibility, level, chroma format, bit depths and the NAL units verbatim. Bound: syntax structure from instance parameters (loop counts <= 2), code-length classes of the ue/se elements concrete per instance with symbolic info bits; no HEVC P/B slice syntax, HEVC scaling lists / HRD, AVC slice groups or HEVC multilayer/3D/SCC extensions", "z3"),
- "C16": ("model_checking", "untrusted elementary-stream bytes: NAL walkers, Annex B scanners, SPS/PPS/VPS/slice header parsers, SEI extraction and message decoders with their String/Payload methods, ADTS and AudioSpecificConfig decoders, AVC/HEVC/AV1 configuration record decoders never panic, never exceed the step budget and allocate at most a small multiple of the input length; fully symbolic input up to the bound", "z3"),
+ "C16": ("model_checking", "untrusted elementary-stream bytes: NAL walkers, Annex B scanners, SPS/PPS/VPS/slice header parsers, SEI extraction and message decoders with their String/Payload methods, ADTS and AudioSpecificConfig decoders, AVC/HEVC/AV1 configuration record decoders never panic, never exceed the step budget and allocate at most a small multiple of the input length; fully symbolic input up to the bound, plus generated SPS/PPS/slice header streams in which each Exp-Golomb element in turn carries a code with 16..40 leading zero bits (huge counts)", "z3"),
  "C17": ("model_checking", "SEI write -> extract returns the same (type, payload) list incl. types/sizes >= 255 and payloads needing emulation prevention; typed messages with a serialiser (AVC pic timing, time code, mastering display, content light level) round-trip with Size() == serialised length; pass-through messages keep their payload; symbolic payloads", "z3"),
  "C18": ("model_checking", "AudioSpecificConfig encode -> decode is the identity for every frequency (table index or explicit 24-bit), channel configuration and supported object type incl. SBR/PS extension; ADTS header encode -> decode for every frequency index, channel configuration and 13-bit length, with the sync-word offset when junk precedes; AAC sample entry round trip; symbolic fields", "z3"),
  "C19": ("model_checking", "init segments built through CreateEmptyInit / AddEmptyTrack / Set*Descriptor: unique track ids 1..n, one trex per track, next_track_ID above all ids, handler/media header matching the media type, sample entry carrying the supplied dimensions, configuration and parameter sets; encodes, decodes to an equal tree, is a fragmented init, fragments for its track ids decode against it; symbolic ids, timescales and parameters in a bounded shape", "z3"),
